@@ -65,7 +65,7 @@ def classify_native(op, rel, pre, out_rel, conf_rel=None):
 class C16(H.Check):
     id = 'C16'
     title = "Only the tool's own files in the output directory are ever written or removed"
-    required_covers = ('run:cli', 'run:build', 'run:init', 'cache-hit', 'no-commands', 'foreign:reserved-name', 'foreign:other-name', 'cleanup-removed')
+    required_covers = ('run:cli', 'run:build', 'run:init', 'cache-hit', 'no-commands', 'foreign:reserved-name', 'foreign:other-name', 'cleanup-removed', 'no-commands-after-generation')
 
     LAYOUTS = {
         'default': ('../src/generated', '/w/app/src/generated', True),
@@ -231,7 +231,8 @@ class C16(H.Check):
             path = p['path']
             e.cover('run:' + path)
             base = 'C16/%s' % path
-            srcs = [SRC_NONE, SRC_NONE] if kind == 'nocmd' else [SRC_CMD, SRC_CMD, SRC_EVT, SRC_CMD]
+            # ... and finally a run that finds no commands in a directory the tool has generated into before
+            srcs = [SRC_NONE, SRC_NONE] if kind == 'nocmd' else [SRC_CMD, SRC_CMD, SRC_EVT, SRC_CMD, SRC_NONE]
             if kind == 'nocmd':
                 # a previous generation left its files behind
                 pre += [('types.ts', Str('export {};\n')), ('commands.ts', Str('export {};\n')), ('index.ts', Str('export {};\n'))]
@@ -250,6 +251,8 @@ class C16(H.Check):
                     e.cover('cache-hit')
                 if any(op == 'remove' for op, _, _ in eff):
                     e.cover('cleanup-removed')
+                if src == SRC_NONE and k:
+                    e.cover('no-commands-after-generation')
                 self.check_effects(ctx, e, box, eff, base, wit)
                 if not X.is_ok(r):
                     break
